@@ -70,6 +70,7 @@ def run(ctx):
         relations(ctx, ins, b["rows"], b["stats"], {"inputs": ins, "batch_size": k})
     ctx.sample({"inputs": bs[0]["inputs"][:2], "stats": bs[0]["stats"]})
     pipe.eval_pipeline_cases(ctx, bs + gs + tb, "c18")
+    c03.h2_check(ctx, bs + gs, "c18h2")
 
 
 def replay(ctx, rep):
